@@ -55,6 +55,9 @@ CHECKS = {
  "C13": dict(level="model_checking", technique="explicit-state BFS over writes / arbiter connect / disconnect / resolve on a single node (SEQ) + explicit-state exploration of a 2-node cluster with the arbiter on either node (NET)",
    text="Single node: all sequences up to the bound over set / stale set-safe / fresh set-safe on two keys, arbiter connect, arbiter disconnect, resolve of the oldest or of the newest outstanding notice (echoing its op id and version): a conflicting write is reported, never applied, recorded under $conflicts_<key>_<id> once an arbiter has registered, delivered exactly once to the connected arbiter, later writes queue; a new arbiter gets exactly the unresolved notices; after the last resolution the key holds it and is writable, nothing pending; a key never leaves conflict state early. Cluster: arbiter on the primary or on the secondary x conflict on the primary or on the secondary, all delivery orders: every recorded conflict reaches the arbiter, and after it is answered all replicas agree, nothing is pending, the key is writable.",
    note="Known findings: arbiter registration is node-local (conflicts on another node are answered 'no arbiter').", design="7/C13"),
+ "C05": dict(level="model_checking", technique="bounded-exhaustive enumeration of primary histories x split points x joiner disks on the in-process cluster (real join path, replicate-since handler, supervisor, oplog query, parser) + explicit-state exploration of a write racing the synchronisation",
+   text="Every history of create-db + up to 2 (quick) / 3 (thorough) operations over {set with values 'v', 'two words', '7 up', '' ; second key; remove; increment; snapshot; create-db arbiter}, split at every point into before-departure / while-away, joiner with an empty disk or restarting from its disk; a second family starts from a database both nodes have persisted (valid oplog, incremental sync). The node leaves (EOF path), the primary runs the while-away part, the node restarts and joins through the real protocol; then joiner == primary on every database: token, strategy, keys, values byte for byte, versions, removed keys absent. Plus: a write on the primary during the synchronisation, all delivery orders, must reach the joiner.",
+   note="One logical clock for the cluster (synchronised wall clocks). Known findings: version-less catch-up commands mangle values (pinned tests assert that format), strategy-less create-db, versions behind, never-snapshotted database missing.", design="7/C05"),
 }
 
 def main():
